@@ -124,6 +124,13 @@ class SocketPort(BaseIOPort):
             raise OSError(err.args[1]) from err
 
     def _close(self):
+        # The connection is only shut down once the file objects made
+        # from the socket are closed as well (there are none if
+        # connecting failed).
+        for file in (getattr(self, '_rfile', None),
+                     getattr(self, '_wfile', None)):
+            if file is not None:
+                file.close()
         self._socket.close()
 
 
